@@ -65,6 +65,11 @@ def escape_bytes(s):
     return Counter(int(h, 16) for h in ESC_S.findall(s))
 
 
+def literal_bytes(s):
+    """multiset of the UTF-8 bytes of s that are outside its valid escapes"""
+    return Counter(utf8(ESC_S.sub("", s) if "%" in s else s))
+
+
 def escape_hex_positions(s):
     """set of indices of s holding a hex digit of a valid escape (hand-written scanner)"""
     pos = set()
